@@ -6,6 +6,7 @@ Description for the extractor unparser
 from __future__ import unicode_literals
 
 import operator
+import re
 from ast import literal_eval
 from collections import namedtuple
 from collections import defaultdict
@@ -726,18 +727,62 @@ class AttrSink(Attr):
         yield  # pragma: no cover
 
 
+try:
+    unichr
+except NameError:  # Python 3
+    unichr = chr
+
+SINGLE_ESCAPE_CHARACTERS = {
+    'b': '\b', 't': '\t', 'n': '\n', 'v': '\x0b', 'f': '\x0c', 'r': '\r',
+}
+PATT_STRING_ESCAPE = re.compile(
+    r'\\(?:(\r\n|[\n\r\u2028\u2029])'    # line continuation
+    r'|x([0-9a-fA-F]{2})|u([0-9a-fA-F]{4})'  # hex and unicode escapes
+    r'|([0-3][0-7]{0,2}|[4-7][0-7]?)'        # NUL and legacy octal escapes
+    r'|(.))', flags=re.S)
+PATT_SURROGATE_PAIR = re.compile('[\ud800-\udbff][\udc00-\udfff]')
+
+
+def string_literal_value(literal):
+    """
+    The string value of an ES5 string literal (section 7.8.4); its
+    escape sequences are not the ones of Python string literals: e.g.
+    `\\/` is a slash, `\\a` is an `a`, and two unicode escapes that form a
+    surrogate pair are one character.
+    """
+
+    def unescape(match):
+        continuation, hex_, unicode_, octal, char = match.groups()
+        if continuation is not None:
+            return ''
+        if hex_ or unicode_:
+            return unichr(int(hex_ or unicode_, 16))
+        if octal:
+            return unichr(int(octal, 8))
+        return SINGLE_ESCAPE_CHARACTERS.get(char, char)
+
+    value = PATT_STRING_ESCAPE.sub(unescape, literal[1:-1])
+    return PATT_SURROGATE_PAIR.sub(
+        lambda m: unichr(0x10000 + ((ord(m.group()[0]) - 0xd800) << 10) +
+                      (ord(m.group()[1]) - 0xdc00)), value)
+
+
 class LiteralEval(Attr):
     """
-    Assume the handler will produce a chunk of type string, and use
-    literal_eval to turn it into some underlying value; current intended
-    usage is for strings and numbers.
+    Assume the handler will produce a chunk of type string, and turn it
+    into the underlying value: the string value for string literals,
+    and literal_eval for the rest (numbers).
     """
 
     def __call__(self, walk, dispatcher, node):
         value = self._getattr(dispatcher, node)
         for chunk in walk(dispatcher, value, token=self):
-            yield next(dispatcher.token(
-                None, node, literal_eval(chunk.value), None))
+            text = chunk.value
+            if isinstance(node, String) and text[:1] in ('"', "'"):
+                result = string_literal_value(text)
+            else:
+                result = literal_eval(text)
+            yield next(dispatcher.token(None, node, result, None))
 
 
 class Raw(Token):
